@@ -2,6 +2,8 @@ import SaVerif.Model.Expr
 import SaVerif.Model.ExprGrammar
 import SaVerif.Model.ExprEval
 import SaVerif.Lemmas.ExprCore
+import SaVerif.Lemmas.ExprBuild
+import SaVerif.Model.ExprSem
 import SaVerif.Drv.Parse
 /-!
 Sub-driver of M-EXPR.  One request per line:
@@ -182,13 +184,6 @@ def grammarOf : Dialect → Grammar
 
 def b01 (b : Bool) : String := if b then "1" else "0"
 
-def litVal : Lit → Val
-  | .int i => .int i
-  | .str s => .str s
-  | .bool b => .int (if b then 1 else 0)
-  | .num _ => .null
-  | .null => .null
-
 def tvStr : TV → String
   | none => "N"
   | some true => "T"
@@ -217,6 +212,69 @@ def dropParens : G → Nat → G × Nat
     let (c', m1) := dropParens c m
     (.br k c', m1)
 
+def symOfName? : String → Option Sym
+  | "plus" => some .plus | "minus" => some .minus | "star" => some .star | "slash" => some .slash
+  | "percent" => some .percent | "concat" => some .concat | "eq" => some .eq | "ne" => some .ne
+  | "lt" => some .lt | "le" => some .le | "gt" => some .gt | "ge" => some .ge | "nseq" => some .nseq
+  | "is_" => some .is_ | "isNot" => some .isNot | "isDistinct" => some .isDistinct
+  | "isNotDistinct" => some .isNotDistinct | "like" => some .like | "notLike" => some .notLike
+  | "ilike" => some .ilike | "notIlike" => some .notIlike | "escape" => some .escape
+  | "between" => some .between | "notBetween" => some .notBetween | "in_" => some .in_
+  | "notIn" => some .notIn | "and_" => some .and_ | "or_" => some .or_ | "not_" => some .not_
+  | "neg" => some .neg | "comma" => some .comma | "as_" => some .as_ | "when_" => some .when_
+  | "then_" => some .then_ | "else_" => some .else_ | "collate" => some .collate
+  | "values" => some .values | _ => none
+
+def symName (s : Sym) : String := (reprStr s).replace "SaVerif.Pratt.Sym." ""
+
+def bracketOfName? : String → Option Bracket
+  | "paren" => some .paren | "caseSearched" => some .caseSearched | "caseSimple" => some .caseSimple
+  | "cast" => some .cast | "fn" => some (.fn "") | _ => none
+
+/-- tokens written by `harness/lib_expr.py:lex_sql` -/
+def parseTok? (t : String) : Option Tok :=
+  if t == "a" then some (Tok.atom ⟨"", .other⟩)
+  else if t.startsWith "p:" then (symOfName? (t.drop 2).toString).map (fun s => Tok.pre s "")
+  else if t.startsWith "i:" then (symOfName? (t.drop 2).toString).map (fun s => Tok.inf s "")
+  else if t.startsWith "o:" then (bracketOfName? (t.drop 2).toString).map Tok.open_
+  else if t.startsWith "c:" then (bracketOfName? (t.drop 2).toString).map Tok.close
+  else none
+
+/-- forget texts, function names and atoms: what `readtok` and `readu` are compared on -/
+def eraseTok : Tok → Tok
+  | .atom _ => .atom ⟨"", .other⟩
+  | .pre s _ => .pre s ""
+  | .inf s _ => .inf s ""
+  | .open_ (.fn _) => .open_ (.fn "")
+  | .close (.fn _) => .close (.fn "")
+  | t => t
+
+/-- `-1` is one literal for the lexer and may be `neg` of a literal in the model: a unary minus
+    directly over a leaf is folded into the leaf on both sides -/
+def collapseNeg : G.Skel → G.Skel
+  | .leaf => .leaf
+  | .pre s c =>
+    match s, collapseNeg c with
+    | .neg, .leaf => .leaf
+    | s, c' => .pre s c'
+  | .inf s l r => .inf s (collapseNeg l) (collapseNeg r)
+  | .tern s m a b c => .tern s m (collapseNeg a) (collapseNeg b) (collapseNeg c)
+  | .br c => .br (collapseNeg c)
+
+def skelStr : G.Skel → String
+  | .leaf => "x"
+  | .pre s c => "(" ++ symName s ++ " " ++ skelStr c ++ ")"
+  | .inf s l r => "(" ++ symName s ++ " " ++ skelStr l ++ " " ++ skelStr r ++ ")"
+  | .tern s m a b c =>
+    "(" ++ symName s ++ "/" ++ symName m ++ " " ++ skelStr a ++ " " ++ skelStr b ++ " " ++ skelStr c ++ ")"
+  | .br c => "[" ++ skelStr c ++ "]"
+
+/-- the grammar's reading of a token sequence, as a skeleton (re-associated) -/
+def readToks (g : Grammar) (ts : List Tok) : String :=
+  match parse g ts with
+  | none => "noparse"
+  | some t => showStr (skelStr (collapseNeg t.strip.norm.skel))
+
 def handle : List String → String
   | "render" :: d :: rest =>
     match parseDialect? d, parseWire rest with
@@ -238,6 +296,36 @@ def handle : List String → String
         | none => "noparse " ++ b01 (wb g t.norm) ++ " " ++ flags
         | some p => "ok " ++ b01 (wb g t.norm) ++ " " ++ b01 (p == t.norm) ++ " " ++ flags
     | _, _ => "bad-op"
+  | "readtok" :: d :: rest =>
+    match parseDialect? d, rest.mapM parseTok? with
+    | some dl, some ts => "ok " ++ readToks (grammarOf dl) ts
+    | _, _ => "bad-op"
+  | "readu" :: d :: rest =>
+    -- reading of the model's own text, and the skeleton of the tree the model intends
+    match parseDialect? d, parseWire rest with
+    | some dl, some u =>
+      match build u with
+      | none => "error"
+      | some e =>
+        let t := render dl true e
+        "ok " ++ readToks (grammarOf dl) (t.print.map eraseTok) ++ " " ++
+          showStr (skelStr (collapseNeg t.strip.norm.skel))
+    | _, _ => "bad-op"
+  | "evalu" :: ia :: ib :: ic :: rest =>
+    -- meaning of a fragment tree (`evalNumU` / `evalBoolU`) on one row of integer columns
+    match parseLit? ia, parseLit? ib, parseLit? ic, parseWire rest with
+    | some a, some b, some c, some u =>
+      let env : String → Val := fun n =>
+        if n == "ia" then litVal a else if n == "ib" then litVal b else if n == "ic" then litVal c
+        else .null
+      if NumU u then
+        match evalNumU env u with
+        | .int i => "ok i" ++ toString i
+        | .null => "ok N"
+        | .str _ => "ok str"
+      else if BoolU u then "ok " ++ tvStr (evalBoolU env u)
+      else "na"
+    | _, _, _, _ => "bad-op"
   | "evalin" :: x :: n :: rest =>
     match parseLit? x, parseNat? n with
     | some xv, some k =>
